@@ -132,6 +132,11 @@ def main():
             os.close(rfd)
             code = 0
             try:
+                import ctypes
+                ctypes.CDLL(None).prctl(1, 9)      # PR_SET_PDEATHSIG = SIGKILL: never outlive the worker
+            except Exception:
+                pass
+            try:
                 run_one(lib, prop, case, core.Stats())
             except Violation as v:
                 os.write(wfd, json.dumps({"msg": v.msg, "key": v.key}).encode())
@@ -141,6 +146,23 @@ def main():
                 code = 3
             os._exit(code)
         os.close(wfd)
+        # the child may spin forever (termination is part of the properties): wait with a limit
+        limit = float(os.environ.get("VERIF_HANG_S", "150"))
+        t_start = time.time()
+        status = None
+        while True:
+            done, st_ = os.waitpid(pid, os.WNOHANG)
+            if done:
+                status = st_
+                break
+            if time.time() - t_start > limit:
+                os.kill(pid, 9)
+                os.waitpid(pid, 0)
+                os.close(rfd)
+                result["failure"] = {"case": core.enc(case), "msg": "(first call in a fresh process) the case did not finish within %d s (a library call does not terminate)" % limit,
+                                     "key": "hang", "detail": None}
+                finish(0)
+            time.sleep(0.002)
         data = b""
         while True:
             chunk = os.read(rfd, 65536)
@@ -148,7 +170,6 @@ def main():
                 break
             data += chunk
         os.close(rfd)
-        _, status = os.waitpid(pid, 0)
         stats.evaluations += 1
         stats.cls("cold_start_probe")
         if os.WIFEXITED(status) and os.WEXITSTATUS(status) == 0:
